@@ -68,7 +68,7 @@ type c06Gen struct {
 	names int
 }
 
-var c06Lits = []string{"a", "a", "b", "b", "c", "x", "A", "B", "é", "日", "1", "_", " ", `\n`, "-", `\.`, `\x41`, `\x{e9}`, "y", "z", `\+`, `\\`}
+var c06Lits = []string{"a", "a", "b", "b", "c", "x", "A", "B", "é", "日", "1", "_", " ", `\n`, "-", `\.`, `\x41`, `\x{e9}`, "y", "z", `\+`, `\\`, `\x{FFFD}`}
 
 var c06Classes = []string{
 	"[ab]", "[^a]", "[a-c]", "[^a-c\\n]", "[[:alpha:]]", "[[:^alpha:]]", "[[:digit:]_]", "[[:space:]]", "[[:word:]]", "[[:upper:]b]", "[^[:lower:]]", "[[:punct:]]",
@@ -154,7 +154,7 @@ func (g *c06Gen) alt(depth int) (string, bool) {
 
 var c06InputItems = []string{
 	"a", "a", "a", "b", "b", "c", "x", "A", "B", "1", "_", " ", "\n", "-", ".", "y", "Z", "+", "\\",
-	"é", "É", "日", "😀", "\u00e8", "\u0416", "\t", "\ufffd",
+	"é", "É", "日", "😀", "\u00a0", "\u0416", "\u0663", "\ufffd",
 	"\xff", "\xc3", "\xe6\x97", "\xed\xa0\x80", "\xc0\x80", "\xf4\x90\x80\x80", "\x80",
 }
 
@@ -487,20 +487,21 @@ func init() {
 			{Pat: `(?m:^)[[:alpha:]]*?$`, In: bs("ab\ncd\n")},
 			{Pat: `(?i)é|k`, In: bs("ÉK")},
 			{Pat: `\d+|\s|`, In: bs("1 22\xe6\x97")},
+			// witnesses of repaired defects (found by this leg)
+			{Pat: `[[:digit:]]`, In: bs("\u0663")},          // 88438d2
+			{Pat: `[[:space:]]|日`, In: bs("\\\u00a0")},      // 503cb91
+			{Pat: `\x{FFFD}`, In: bs("\xff")},               // 898afa2
+			{Pat: `a\x{FFFD}|[\x{FFFD}]`, In: bs("a\xffb")}, // 898afa2
+			{Pat: `\D|.z`, In: bs("xy")},                    // 0185758
+			{Pat: `(?m:\D)a*(?-i:|\x{e9}{1,3}|-)|.{2,}?zz`, In: bs(" \\\\y")},
+			{Pat: `(?P<n1>a+)(b)?`, In: bs("aab")}, // mixed named/unnamed groups: compiled with OptionMaintainCaptureOrder
 		}
-		// Leg K: fixed minimal cases of the divergence classes found so far (design.d/C06.md). The
-		// generator of leg G stays clear of them; each is reported under its own key.
+		// Leg K: fixed minimal cases of the divergence classes that are carried as known findings
+		// (design.d/C06.md). The generator of leg G stays clear of them; each has its own key.
 		probe := func(name, pat, in string) c06Case { return c06Case{Pat: pat, In: bs(in), Plain: true, Probe: name} }
 		probes := []c06Case{
-			probe("group-order", `(?P<n1>a+)(b)?`, "aab"),
-			probe("posix-space-unicode", `[[:space:]]`, "\u00a0"),
-			probe("posix-digit-unicode", `[[:digit:]]`, "\u0663"),
+			// carried as a known finding: regexp folds \w before negating, regexp2 folds the negated class
 			probe("fold-negated-perl-class", `(?i)\W`, "k"),
-			probe("ufffd-literal-vs-invalid-byte", `\x{FFFD}`, "\xff"),
-			probe("first-char-set-negated-flip", `\D|.z`, "xy"),
-			probe("ungreedy-flag-U", `(?U)a+`, "aaa"),
-			probe("quote-QE", `\Qa.b\E+`, "a.bbb"),
-			probe("class-subtraction-syntax", `[a-z-[aeiou]]+`, "ab-]"),
 		}
 		core.RunLeg(c, core.Leg[c06Case]{
 			Name: "K", Kind: "oracle",
@@ -509,7 +510,7 @@ func init() {
 		})
 		core.RunLeg(c, core.Leg[c06Case]{
 			Name: "G", Kind: "correspondence+oracle",
-			Rule: "patterns printed from random ASTs over literals (incl. escapes \\x41 \\x{e9}), classes ([ab] [^a] ranges, POSIX [[:alpha:]] …, \\d \\w \\s and negations, \\pL, .), anchors ^ $ \\A \\z \\b \\B, alternation with empty branches, capturing / named (?P<n>) / non-capturing / flag groups (?i: ?s: ?m: ?-s:), greedy and lazy * + ? {m} {m,n} {m,} applied only to non-nullable atoms, optional leading (?i)/(?s)/(?m); inputs of 0-13 items over ASCII, multi-byte (é É 日 😀 U+212A U+017F U+00A0 U+FFFD) and invalid UTF-8 pieces (\\xff, truncated and overlong sequences, surrogate, > U+10FFFF); n in {-1,0,1,2,3}; patterns either engine rejects are skipped and counted. non-trivial = regexp finds a match; distinct by (pattern, input). Oracle: all 21 methods of compat.Matcher (8 find-all methods x 5 n) on compat.Compile(p, RE2) vs regexp.Compile(p), reflect.DeepEqual incl. nil-ness; regexp2's single-position attempt at every rune position vs regexp's \\A(?s:.{p})(P). Correspondence: Lean compatForEach, findAll, stdAll over that table vs compat.FindAllStringSubmatchIndex, compat.FindAllStringIndex, regexp.FindAllStringIndex",
+			Rule:   "patterns printed from random ASTs over literals (incl. escapes \\x41 \\x{e9}), classes ([ab] [^a] ranges, POSIX [[:alpha:]] …, \\d \\w \\s and negations, \\pL, .), anchors ^ $ \\A \\z \\b \\B, alternation with empty branches, capturing / named (?P<n>) / non-capturing / flag groups (?i: ?s: ?m: ?-s:), greedy and lazy * + ? {m} {m,n} {m,} applied only to non-nullable atoms, optional leading (?i)/(?s)/(?m); inputs of 0-13 items over ASCII, multi-byte (é É 日 😀 U+212A U+017F U+00A0 U+FFFD) and invalid UTF-8 pieces (\\xff, truncated and overlong sequences, surrogate, > U+10FFFF); n in {-1,0,1,2,3}; patterns either engine rejects are skipped and counted. non-trivial = regexp finds a match; distinct by (pattern, input). Oracle: all 21 methods of compat.Matcher (8 find-all methods x 5 n) on compat.Compile(p, RE2) vs regexp.Compile(p), reflect.DeepEqual incl. nil-ness; regexp2's single-position attempt at every rune position vs regexp's \\A(?s:.{p})(P). Correspondence: Lean compatForEach, findAll, stdAll over that table vs compat.FindAllStringSubmatchIndex, compat.FindAllStringIndex, regexp.FindAllStringIndex",
 			Corpus: corpus, N: c.N(3000, 100000), Gen: c06GenCase, Check: c06Check, Batch: 1000,
 		})
 	})
